@@ -243,7 +243,9 @@ impl<'i> SmlParseTlf<'i> for List<'i> {
     }
 
     fn parse_with_tlf(mut input: &'i [u8], tlf: &TypeLengthField) -> ResTy<'i, Self> {
-        let mut v = Vec::with_capacity(tlf.len as usize);
+        // The declared length is untrusted input: never pre-allocate more entries than the
+        // remaining input can hold (a list entry takes at least 8 bytes on the wire).
+        let mut v = Vec::with_capacity((tlf.len as usize).min(input.len() / 8));
         for _ in 0..tlf.len {
             let (new_input, x) = ListEntry::parse(input)?;
             v.push(x);
